@@ -138,7 +138,7 @@ K("C03", "K03-inter-count", "c03_intersection_count", tiers="t", timeout=900,
   functions=["Intersection::count_including_deleted{,_sparse,_dense}", "DocSet::fill_bitset_block (default)"],
   bounds="2 leaves x <=3 docs, ids < 4000, segment size 1..4000", assumes=[ARR])
 for _g in (1, 2, 3, 10, 1000):
-    K("C03", "K03-range-gcd%d" % _g, "c08_range_transform_gcd%d" % _g, crate="tantivy-columnar", timeout=120, group="range-gcd",
+    K("C03", "K03-range-gcd%d" % _g, "c08_range_transform_gcd%d" % _g, crate="tantivy-columnar", timeout=300 if _g == 1000 else 120, group="range-gcd",
       title="fast-field range push-down: value in range <=> packed value in transformed range (gcd %d)" % _g,
       functions=["bitpacked::transform_range_before_linear_transformation", "bitpacked::div_ceil"],
       bounds="min_value, range bounds full u64; packed <= 2^40; gcd = %d (concrete per harness)" % _g,
@@ -153,9 +153,9 @@ def _c06(oid, harness, title, fns, bounds, **kw):
 _c06("K06-topn-k1", "c06_topn_k1_m4_natural", "TopNComputer K=1, 4 pushes = exhaustive ranking incl. ties", ["TopNComputer::{new_with_comparator,push,append_doc,truncate_top_n,into_sorted_vec}", "compare_for_top_k"], "u8 keys (ties abound), NaturalComparator; unwind 7", timeout=120, group="topn")
 _c06("K06-topn-k2", "c06_topn_k2_m5_natural", "TopNComputer K=2, 5 pushes", ["TopNComputer::*"], "u8 keys; unwind 8", timeout=180, group="topn")
 _c06("K06-topn-k2-rev", "c06_topn_k2_m5_reverse", "TopNComputer K=2, ReverseComparator (ascending sort)", ["TopNComputer::*", "ReverseComparator::compare"], "u8 keys; unwind 8", timeout=180, group="topn")
-_c06("K06-topn-k2-m7", "c06_topn_k2_m7_natural", "TopNComputer K=2, 7 pushes (two truncations)", ["TopNComputer::*"], "u8 keys; unwind 10", timeout=3600, tiers="t")
+_c06("K06-topn-k2-m7", "c06_topn_k2_m7_natural", "TopNComputer K=2, 7 pushes (two truncations)", ["TopNComputer::*"], "u8 keys; unwind 10", timeout=3600, tiers="t", mem=30)
 _c06("K06-topn-k3-m7", "c06_topn_k3_m7_natural", "TopNComputer K=3, 7 pushes (one truncation)", ["TopNComputer::*"], "u8 keys; unwind 10", timeout=300)
-_c06("K06-topn-k3-m9", "c06_topn_k3_m9_reverse", "TopNComputer K=3, 9 pushes, ReverseComparator", ["TopNComputer::*"], "u8 keys; unwind 12", timeout=3600, tiers="t")
+_c06("K06-topn-k3-m9", "c06_topn_k3_m9_reverse", "TopNComputer K=3, 9 pushes, ReverseComparator", ["TopNComputer::*"], "u8 keys; unwind 12", timeout=3600, tiers="t", mem=30)
 _c06("K06-threshold", "c06_topn_threshold_sound_k2_m6", "threshold soundness: a dropped push is never in the top K; threshold = key of a pushed item with > K items >= it", ["TopNComputer::push", "truncate_top_n"], "K=2, 6 pushes, u8 keys; unwind 8", timeout=400)
 _c06("K06-heap-k1", "c06_topnheap_k1_m4", "TopNHeap K=1: results are top-K members, threshold = exact K-th best score", ["TopNHeap::{new,push,into_vec}", "ScoreHeapEntry::cmp"], "4 pushes, u8 scores as f32; unwind 8", timeout=120, group="heap")
 _c06("K06-heap-k2", "c06_topnheap_k2_m5", "TopNHeap K=2, 5 pushes", ["TopNHeap::*"], "unwind 8", timeout=180, group="heap")
@@ -224,7 +224,7 @@ for _w in (9, 32, 33):
       functions=["BitUnpacker::get_ids_for_value_range", "get_ids_for_value_range_slow"], bounds="3 values of width %d, all u64 bounds; unwind 10" % _w,
       stubs=(["BitUnpacker::get_ids_for_value_range_fast -> its specification (the SIMD kernel itself is an unsupported construct for CBMC)"] if _w <= 32 else []))
 for _g in (1, 2, 3, 10, 1000):
-    K("C08", "K08-range-gcd%d" % _g, "c08_range_transform_gcd%d" % _g, crate="tantivy-columnar", timeout=120, group="c08-range-gcd",
+    K("C08", "K08-range-gcd%d" % _g, "c08_range_transform_gcd%d" % _g, crate="tantivy-columnar", timeout=300 if _g == 1000 else 120, group="c08-range-gcd",
       title="range push-down through min/gcd transformation, gcd %d" % _g, functions=["bitpacked::transform_range_before_linear_transformation"],
       bounds="gcd = %d; packed <= 2^40; all u64 bounds" % _g, assumes=["min_value + gcd*packed does not overflow"])
 K("C08", "K08-stacked-rows-v1", "c08_stacked_rows_with_values_multivalued_v1", crate="tantivy-columnar", timeout=600,
